@@ -712,6 +712,17 @@ class Interp:
                 if isinstance(v, (Opaque, Sym)):
                     raise Unsupported(e, "(type() of a model object)")
                 return type(v)
+            if nm == "next" and len(e.args) == 1 and nm not in self.env and isinstance(e.args[0], ast.Call) and isinstance(e.args[0].func, ast.Name) and e.args[0].func.id == "iter" and len(e.args[0].args) == 1:
+                c = self.ev(e.args[0].args[0])
+                if isinstance(c, (list, tuple)):
+                    if not c:
+                        raise PyRaise("StopIteration", None)
+                    return c[0]
+                if isinstance(c, (set, frozenset, dict)):
+                    if not c:
+                        raise PyRaise("StopIteration", None)
+                    # an arbitrary element, chosen reproducibly (see set.pop)
+                    return sorted(c, key=lambda v: (type(v).__name__, repr(v)))[0]
             if nm == "getattr" and len(e.args) in (2, 3) and nm not in self.env and self.globals.get("__native_getattr__"):
                 o = self.ev(e.args[0])
                 a = self.ev(e.args[1])
